@@ -365,6 +365,8 @@ static void Table_Set_Move(var self, var key, var val, bool move) {
       + t->ksize + sizeof(struct Header), val);
   }
   
+  CELLO_VERIF_POINT(CELLO_VP_TABLE_SET, t->sspace0);
+  
   while (true) {
     
     uint64_t h = Table_Key_Hash(t, i);
@@ -409,6 +411,8 @@ static void Table_Rehash(struct Table* t, size_t new_size) {
     throw(OutOfMemoryError, "Cannot allocate Table, out of memory!");
   }
 #endif
+  
+  CELLO_VERIF_POINT(CELLO_VP_TABLE_REHASH, t);
   
   for (size_t i = 0; i < old_size; i++) {
     
@@ -667,6 +671,7 @@ static void Table_Resize(var self, size_t n) {
 static void Table_Mark(var self, var gc, void(*f)(var,void*)) {
   struct Table* t = self;
   for(size_t i = 0; i < t->nslots; i++) {
+    CELLO_VERIF_POINT(CELLO_VP_TABLE_MARK, t);
     if (Table_Key_Hash(t, i) isnt 0) {
       f(gc, Table_Key(t, i));
       f(gc, Table_Val(t, i));
